@@ -445,6 +445,18 @@ pub fn act(w: &mut World, op: &Op) -> bool {
                     }
                     s
                 }
+                Signer::Observed => {
+                    let v_addr = w.nodes[0].addr;
+                    w.log
+                        .iter()
+                        .rev()
+                        .filter(|d| d.from_node.is_some() && d.to_addr == v_addr)
+                        .find_map(|d| match d.decoded.as_ref().map(|p| &p.0.kind) {
+                            Some(PacketKind::Handshake { src_id, id_nonce_sig, .. }) if src_id.raw() == xid => Some(id_nonce_sig.clone()),
+                            _ => None,
+                        })
+                        .unwrap_or_else(|| prng(w.step, 34, 64))
+                }
                 Signer::Genuine => match w.xnode(x) {
                     Some(j) => hv::sign_nonce(&w.nodes[j].key, &challenge, &eph_bytes, &vid).unwrap_or_default(),
                     None => vec![],
@@ -600,6 +612,40 @@ pub fn act(w: &mut World, op: &Op) -> bool {
             }
             None => false,
         },
+        Op::WhoAreYouForInflight { node, sel: s, handshaken_only } => {
+            let t = *node as usize % n;
+            let cands: Vec<(SocketAddr, [u8; 12])> = w.snaps[t].active.iter().filter(|a| !*handshaken_only || a.handshake_sent).map(|a| (a.addr.socket_addr, a.nonce)).collect();
+            let Some(k) = sel(&cands, *s) else { return false };
+            let (from, nonce) = cands[k];
+            let vp = VPacket {
+                iv: u128::from_be_bytes(arr::<16>(prng(w.step, 64, 16))),
+                message_nonce: nonce,
+                protocol_identity: ProtocolIdentity::default(),
+                kind: PacketKind::WhoAreYou { id_nonce: arr::<16>(prng(w.step, 65, 16)), enr_seq: 0 },
+                message: vec![],
+            };
+            let bytes = packet_encode(vp, &ids::node_id(&w.nodes[t].id));
+            w.inject(t, from, bytes, None, Some("forged-whoareyou".into()));
+            true
+        }
+        Op::Ban { peer, ip, on } => {
+            let j = 1 + (*peer as usize % (n - 1).max(1));
+            if j >= n {
+                return false;
+            }
+            let mut l = discv5::verif::PERMIT_BAN_LIST.write();
+            let id = ids::node_id(&w.nodes[j].id);
+            if *on {
+                l.ban_nodes.insert(id, None);
+                if *ip {
+                    l.ban_ips.insert(w.nodes[j].addr.ip(), None);
+                }
+            } else {
+                l.ban_nodes.remove(&id);
+                l.ban_ips.remove(&w.nodes[j].addr.ip());
+            }
+            true
+        }
         Op::SubmitToMany { n: many } => {
             let pk = attacker_key(0).public();
             for i in 0..(*many).min(1500) {
